@@ -6,6 +6,7 @@ import (
 	"encoding/json"
 	"flag"
 	"fmt"
+	"golang.org/x/tools/go/ssa"
 	"os"
 	"path/filepath"
 	"regexp"
@@ -30,6 +31,7 @@ type propConfig struct {
 
 var propConfigs = map[string]propConfig{
 	"C17": {},
+	"C09": {Gen: true},
 }
 
 var pathSuffix = regexp.MustCompile(`@path\d+$`)
@@ -39,6 +41,7 @@ func oblBase(o *Obligation) string {
 }
 
 type checkOpts struct {
+	outDir                  string // where evidence/replays go (default: verif)
 	prop, tier, repo, verif string
 	seed                    int
 	quiet                   bool
@@ -63,6 +66,7 @@ func cmdCheck(args []string) int {
 	tier := fs.String("tier", os.Getenv("VERIF_TIER"), "quick|thorough")
 	repo := fs.String("repo", "/repo", "")
 	verif := fs.String("verif", "/verif", "")
+	out := fs.String("out", "", "directory for evidence/replays (default: the verif dir)")
 	var prop string
 	if len(args) > 0 && !strings.HasPrefix(args[0], "-") {
 		prop = args[0]
@@ -76,7 +80,7 @@ func cmdCheck(args []string) int {
 		*tier = "quick"
 	}
 	seed, _ := strconv.Atoi(os.Getenv("VERIF_SEED"))
-	r := runCheck(checkOpts{prop: prop, tier: *tier, repo: *repo, verif: *verif, seed: seed})
+	r := runCheck(checkOpts{prop: prop, tier: *tier, repo: *repo, verif: *verif, seed: seed, outDir: *out})
 	return r.Exit
 }
 
@@ -96,8 +100,11 @@ func runCheck(o checkOpts) *CheckResult {
 	}
 	cleanup, err := e.setup(o.verif, cfg.Gen, "")
 	defer cleanup()
-	evPath := filepath.Join(o.verif, "evidence", o.prop+".json")
-	replayDir := filepath.Join(o.verif, "replays", o.prop)
+	if o.outDir == "" {
+		o.outDir = o.verif
+	}
+	evPath := filepath.Join(o.outDir, "evidence", o.prop+".json")
+	replayDir := filepath.Join(o.outDir, "replays", o.prop)
 	os.MkdirAll(filepath.Dir(evPath), 0o755)
 	os.RemoveAll(replayDir)
 	os.MkdirAll(replayDir, 0o755)
@@ -154,6 +161,7 @@ func runCheck(o checkOpts) *CheckResult {
 		for _, c := range fc.Requires {
 			sel = sel || hasTag(c.Tags, o.prop)
 		}
+		sel = sel || hasTag(fc.Verify, o.prop)
 		if sel {
 			keys = append(keys, k)
 		}
@@ -161,6 +169,11 @@ func runCheck(o checkOpts) *CheckResult {
 	sort.Strings(keys)
 	var all []*Obligation
 	var results []*FuncResult
+	// worklist: tagged functions, then everything their proofs rely on (transitively)
+	var work []workItem
+	done := map[string]bool{}
+	seenSSA := map[string]string{}
+	var skipped []string
 	for _, k := range keys {
 		fc := e.db.Funcs[k]
 		fns := e.funcs[k]
@@ -170,22 +183,73 @@ func runCheck(o checkOpts) *CheckResult {
 			continue
 		}
 		for _, fn := range fns {
-			r := e.verifyFunction(fn, fc)
-			results = append(results, r)
-			if r.Err != "" {
-				p := writeReplay(k+"_error", map[string]interface{}{"obligation": k + " (all obligations)", "function": r.Fn, "solver_reason": r.Err})
-				report(Violation{Obligation: k + " verification-conditions", Replay: p, NoInput: true, Detail: r.Err})
+			work = append(work, workItem{fn, fc})
+		}
+	}
+	for len(work) > 0 {
+		it := work[0]
+		work = work[1:]
+		id := it.fn.String() + "|" + it.fc.Refines + it.fc.RefOf
+		if done[id] {
+			continue
+		}
+		done[id] = true
+		if e.normPkgPath(pkgPathOf(it.fn)) == "GEN" {
+			// template code is emitted identically for every struct shape: verify one copy
+			h := e.canonicalSSA(it.fn) + "|" + it.fc.Refines + it.fc.RefOf
+			if first, dup := seenSSA[h]; dup {
+				skipped = append(skipped, fmt.Sprintf("%s: SSA identical to %s (verified there)", it.fn.String(), first))
 				continue
 			}
-			for _, ob := range r.Obls {
-				if len(ob.Tags) == 0 || hasTag(ob.Tags, o.prop) {
-					ob.Func = k
-					all = append(all, ob)
+			seenSSA[h] = it.fn.String()
+		}
+		k := it.fc.Key
+		r := e.verifyFunction(it.fn, it.fc)
+		if it.fc.Refines != "" {
+			r.Key = k + " refines " + it.fc.Refines + " " + it.fc.RefOf
+		}
+		results = append(results, r)
+		if r.Err != "" {
+			p := writeReplay(k+"_error", map[string]interface{}{"obligation": r.Key + " (all obligations)", "function": r.Fn, "solver_reason": r.Err})
+			report(Violation{Obligation: r.Key + " verification-conditions", Replay: p, NoInput: true, Detail: r.Err})
+			continue
+		}
+		for _, ob := range r.Obls {
+			if len(ob.Tags) == 0 || hasTag(ob.Tags, o.prop) {
+				ob.Func = r.Key
+				all = append(all, ob)
+			}
+		}
+		for _, rk := range r.Reached {
+			kind, key := rk[:strings.Index(rk, ":")], rk[strings.Index(rk, ":")+1:]
+			switch kind {
+			case "func":
+				fc := e.db.Funcs[key]
+				if fc == nil || fc.Trusted || fc.NoBody {
+					continue
+				}
+				for _, fn := range e.funcs[key] {
+					// generated code: stay inside the package of the caller
+					if e.normPkgPath(pkgPathOf(fn)) == "GEN" && pkgPathOf(fn) != pkgPathOf(it.fn) && e.normPkgPath(pkgPathOf(it.fn)) == "GEN" {
+						continue
+					}
+					work = append(work, workItem{fn, fc})
+				}
+			case "functype", "iface":
+				for _, w := range e.refinementsOf(kind, key) {
+					if e.normPkgPath(pkgPathOf(w.fn)) == "GEN" && e.normPkgPath(pkgPathOf(it.fn)) == "GEN" && pkgPathOf(w.fn) != pkgPathOf(it.fn) {
+						continue
+					}
+					work = append(work, w)
 				}
 			}
 		}
 	}
+	tD := time.Now()
 	e.discharge(all)
+	if os.Getenv("GOVC_DEBUG") != "" {
+		fmt.Fprintf(os.Stderr, "functions=%d obligations=%d generation=%.1fs discharge=%.1fs\n", len(results), len(all), tD.Sub(t0).Seconds(), time.Since(tD).Seconds())
+	}
 	nObl, nOK := 0, 0
 	for _, ob := range all {
 		if ob.Kind == "cover" {
@@ -211,6 +275,7 @@ func runCheck(o checkOpts) *CheckResult {
 	if len(res.Violations) > 0 {
 		res.Exit = 1
 	}
+	e.skipped = skipped
 	writeEvidence(evPath, o, results, res, e, time.Since(t0).Seconds(), nObl, nOK, all)
 	if res.Exit == 0 {
 		fmt.Printf("property %s: %d/%d obligations discharged over %d functions (%.1fs)\n", o.prop, nOK, nObl, len(results), time.Since(t0).Seconds())
@@ -325,6 +390,7 @@ func writeEvidence(path string, o checkOpts, results []*FuncResult, res *CheckRe
 		"obligation_kinds":         kinds,
 		"known_findings_reported":  res.Known,
 		"bounded":                  []string{},
+		"identical_copies_skipped": e.skipped,
 		"explanation":              "contract-based deductive verification: verification conditions generated from go/ssa of the working tree, one SMT query per obligation",
 	}
 	level := "proof"
@@ -341,3 +407,13 @@ func writeEvidence(path string, o checkOpts, results []*FuncResult, res *CheckRe
 }
 
 func round3(f float64) float64 { return float64(int(f*1000+0.5)) / 1000 }
+
+func pkgPathOf(fn *ssa.Function) string {
+	for fn != nil && fn.Pkg == nil {
+		fn = fn.Parent()
+	}
+	if fn == nil || fn.Pkg == nil {
+		return ""
+	}
+	return fn.Pkg.Pkg.Path()
+}
